@@ -346,11 +346,12 @@ def run_sharded(exe, args, lines, shards=None, timeout=1800, env=None, case_time
     with cf.ThreadPoolExecutor(max_workers=len(chunks)) as ex:
         for ch, (rc, out, err) in zip(chunks, ex.map(work, chunks)):
             if len(out) < len(ch):
-                # the case after the last complete line crashed the process: rerun the rest one by one
-                done = len(out)
+                # the case after the last complete line crashed the process: judge that case alone, then go on with
+                # the rest as a batch again (a tree with many crashing cases costs two launches per crash, not one per case)
                 res.extend(out)
-                rest = ch[done:]
-                for k, ln in enumerate(rest):
+                rest = ch[len(out):]
+                while rest:
+                    ln = rest[0]
                     rc1, out1, err1 = run_lines(exe, args, [ln], timeout=case_timeout, env=env)
                     if rc1 == 124 and "[timeout]" in err1 and retried < 5:
                         # a loaded machine must not turn into a verdict: one retry with four times the limit
@@ -363,6 +364,12 @@ def run_sharded(exe, args, lines, shards=None, timeout=1800, env=None, case_time
                         tag = sanitizer_summary(err1)
                         res.append("CRASH " + tag)
                         crashes.append((ln, err1[-3000:]))
+                    rest = rest[1:]
+                    if rest:
+                        rc2, out2, err2 = run_lines(exe, args, rest, timeout=timeout, env=env)
+                        out2 = out2[:len(rest)]
+                        res.extend(out2)
+                        rest = rest[len(out2):]
             else:
                 res.extend(out[:len(ch)])
     return res, crashes
